@@ -423,7 +423,7 @@ def r08_9(ctx) -> None:
 
 def run(ctx) -> None:
     from .common import forwarding_discipline
-    ctx.guard(forwarding_discipline, "R08.12", ['recipient', 'enc', 'tag', 'cek', 'aad', 'iv', 'ek'], 51)  # arguments are handed on under their own name (generic routing rule, rules/common.py)
+    ctx.guard(forwarding_discipline, "R08.12", ['recipient', 'enc', 'tag', 'cek', 'aad', 'iv', 'ek'], 51, "jwe")  # arguments are handed on under their own name (generic routing rule, rules/common.py)
     ctx.guard(r08_9)
     from .c04 import r04_4
     ctx.guard_as("R08.10", r04_4)
